@@ -92,6 +92,15 @@ func c10monitor(cw *caseWriter) func(tag string, in, obs []uint64) {
 			if st.sc[sLastLogIdx] != li || st.sc[sLastLogTerm] != lt {
 				cw.monitor("C10", tag, "recovered-last-log-differs", "restart %d: last log (%d,%d), store holds (%d,%d)", i, st.sc[sLastLogIdx], st.sc[sLastLogTerm], li, lt)
 			}
+			// a commit index restored from the store that covers the latest configuration entry: the server must know that
+			// configuration committed, or - once it leads - its membership-change gate never opens (the leader loop promotes a
+			// configuration only when the commit index moves PAST it) and every AddVoter/RemoveServer/Restore call stalls (F13)
+			if st.sc[sCommit] > 0 && st.sc[sLatestIdx] <= st.sc[sCommit] && st.sc[sCommittedIdx] != st.sc[sLatestIdx] {
+				for _, p := range []string{"C10", "C07", "C17"} {
+					cw.monitor(p, tag, "restart-leaves-a-committed-configuration-unpromoted", "restart %d: commit index %d restored, latest configuration at %d, committed configuration still at %d: a leader in this state never takes a membership change",
+						i, st.sc[sCommit], st.sc[sLatestIdx], st.sc[sCommittedIdx])
+				}
+			}
 			// the latest configuration durably recorded: last configuration entry above the
 			// snapshot, else the snapshot's
 			snapIdx := st.sc[sLastSnapIdx]
